@@ -27,7 +27,7 @@ PROPS["C01"] = {
           ["ReadResult<BlobRecordTimestamp>::latest"], "all inputs", covers=1, timeout=120),
     ],
     "mir": [
-        ob("push_step", "ob_index", "push_step", kwargs={"L": 5}, thorough_kwargs={"L": 7}),
+        ob("push_step", "ob_index", "push_step", kwargs={"L": 5}, thorough_kwargs={"L": 6}),
         ob("get_latest_mem", "ob_index", "get_latest_mem", kwargs={"L": 6}, thorough_kwargs={"L": 12}),
     ],
     "assumptions": COMMON_K + COMMON_M + [
@@ -323,3 +323,9 @@ PROPS["C06"]["mir"].append(ob("rawrecords_start_checks", "ob_misc", "rawrecords_
 PROPS["C17"]["mir"].append(ob("rawrecords_start_checks_c17", "ob_misc", "rawrecords_start_checks"))
 PROPS["C03"]["mir"].append(ob("blob_from_file_regenerates", "ob_misc", "blob_from_file_regenerates"))
 PROPS["C06"]["mir"].append(ob("blob_from_file_regenerates_c06", "ob_misc", "blob_from_file_regenerates"))
+PROPS["C01"]["mir"].append(ob("blob_latest_dispatch", "ob_blobread", "blob_latest_dispatch"))
+PROPS["C10"]["mir"].append(ob("blob_latest_dispatch_c10", "ob_blobread", "blob_latest_dispatch"))
+PROPS["C02"]["mir"].append(ob("blob_meta_lookup", "ob_blobread", "blob_meta_lookup", kwargs={"L": 3}, thorough_kwargs={"L": 5}))
+
+PROPS["C06"]["kani"].append(H("c06_classify_foreign_errors", "should_save_corrupted_blob: an error that is not a pearl Error (plain I/O error, ad-hoc anyhow error) never quarantines a blob",
+                              ["Storage::should_save_corrupted_blob"], "one ad-hoc anyhow error, one io::Error (PermissionDenied)", covers=2, timeout=600))
